@@ -5,38 +5,73 @@ package hermes
 
 func init() {
 	vRegister("zzC08PotET", func(a []int) { zzC08PotET(a[0]) })
+	vRegister("zzC08PotETAt", func(a []int) { zzC08PotETAt(a[0], a[1]) })
 	vRegister("zzC08Uptake", func(a []int) { zzC08Uptake(a[0], a[1]) })
 	vRegister("zzC08Factors", func(a []int) { zzC08Factors(a[0], a[1]) })
 }
 
 // crop branch of the potential ET computation for the methods without transcendental functions
-func zzC08PotET(method int) {
+func zzC08PotET(method int) { zzC08PotETAt(method, 0) }
+
+// methods 3 (Penman-Monteith) and 4 (Priestley-Taylor) need the astronomy of the day: site and day are concrete
+// per instance - 52 N / 69.7 N x summer / winter solstice, the last being a day without sunrise - while the
+// weather of the day is symbolic
+func zzC08PotETAt(method, astro int) {
 	g := new(GlobalVarsMain)
 	l := new(WaterSharedVars)
 	g.TAG = NewDualType(100, 1)
+	if method == 3 || method == 4 {
+		g.LAT = []float64{52, 52, 69.7, 69.7}[astro]
+		g.TAG = NewDualType([]int{171, 354, 171, 354}[astro], 1)
+		d := g.TAG.Index
+		g.TMIN[d], g.TMAX[d], g.SUND[d], g.WIND[d], g.RH[d] = vFloat("tmin"), vFloat("tmax"), vFloat("sund"), vFloat("wind"), vFloat("rh")
+		g.ALTI, g.WINDHI = vFloat("alti"), vFloat("windhi")
+		g.CTRANS = vBool("ctrans")
+		g.RSTOM = 100
+		vAssume(g.TMIN[d] >= -60 && g.TMIN[d] <= g.TMAX[d] && g.TMAX[d] <= 60 && g.SUND[d] >= 0 && g.SUND[d] <= 24)
+		vAssume(g.WIND[d] >= 0 && g.WIND[d] <= 40 && g.RH[d] >= 0 && g.RH[d] <= 100 && g.ALTI >= -400 && g.ALTI <= 5000 && g.WINDHI >= 0.5 && g.WINDHI <= 100)
+		g.VERD[d], g.RAD[d], g.TEMP[d], g.ETNULL[d] = vFloat("verd"), vFloat("rad"), vFloat("temp"), vFloat("etnull")
+		vAssume(g.TMIN[d] <= g.TEMP[d] && g.TEMP[d] <= g.TMAX[d])
+		vAssume(g.RAD[d] >= 0)
+		if astro == 3 {
+			vAssume(g.RAD[d] == 0) // no global radiation is measured on a day without sunrise
+		}
+		g.VERD[100], g.RAD[100], g.TEMP[100], g.ETNULL[100] = g.VERD[d], g.RAD[d], g.TEMP[d], g.ETNULL[d]
+	}
+	dd := g.TAG.Index
 	g.ETMETH = method
-	g.VERD[100] = vFloat("verd")
-	g.RAD[100] = vFloat("rad")
-	g.TEMP[100] = vFloat("temp")
-	g.ETNULL[100] = vFloat("etnull")
+	g.VERD[dd] = vFloat("verd")
+	g.RAD[dd] = vFloat("rad")
+	g.TEMP[dd] = vFloat("temp")
+	g.ETNULL[dd] = vFloat("etnull")
 	g.KCOA = vFloat("kcoa")
 	g.FKC = vFloat("fkc")
 	g.LAI = vFloat("lai")
 	FKM := 4
 	g.FKF[3] = vFloat("fkf")
 	// WEATHER domain
-	vAssume(g.VERD[100] >= 0 && g.VERD[100] <= 60 && g.RAD[100] > 0 && g.RAD[100] <= 25)
-	vAssume(g.TEMP[100] >= -60 && g.TEMP[100] <= 60 && g.ETNULL[100] >= 0 && g.ETNULL[100] <= 20)
+	if method == 3 || method == 4 {
+		vAssume(g.VERD[dd] >= 0 && g.VERD[dd] <= 60 && g.RAD[dd] >= 0 && g.RAD[dd] <= 25)
+	} else {
+		vAssume(g.VERD[dd] >= 0 && g.VERD[dd] <= 60 && g.RAD[dd] > 0 && g.RAD[dd] <= 25)
+	}
+	vAssume(g.TEMP[dd] >= -60 && g.TEMP[dd] <= 60 && g.ETNULL[dd] >= 0 && g.ETNULL[dd] <= 20)
 	vAssume(g.KCOA >= 0.5 && g.KCOA <= 1 && g.FKC >= 0 && g.FKC <= 2 && g.FKF[3] >= 0 && g.FKF[3] <= 1 && g.LAI >= 0 && g.LAI <= 12)
 	var VERDU [366]float64
 	var RADn, RADRatio, TRAMAX, FK, EVMAX, ETCP float64
 	zzR_PotETCrop(l, g, &VERDU, &RADn, &RADRatio, FKM, &TRAMAX, &FK, &EVMAX, &ETCP)
 	vCover("C08.pot.reach")
 	vObserve("etcp", ETCP)
+	vObserve("et0", g.ET0)
 	vAssert("C08.pot.potential_et_capped", ETCP <= 0.65)
 	if !vKnown("C08-negative-potential-et") {
 		vAssert("C08.pot.potential_et_nonneg", ETCP >= 0)
-		vAssert("C08.pot.split_nonneg", EVMAX >= 0 && TRAMAX >= 0)
+		if method != 3 && method != 4 {
+			// the split depends on the potential ET only through its range [0, 0.65], which is asserted above for
+			// every method; it is decided on the instances whose formula the solvers can carry (methods 1, 2, 5)
+			vAssert("C08.pot.split_nonneg", EVMAX >= 0 && TRAMAX >= 0)
+		}
+		vAssert("C08.pot.reference_et_nonneg", g.ET0 >= 0)
 	}
 	vAssert("C08.pot.split_sums_to_potential", vNear(EVMAX+TRAMAX, ETCP, 1e-9))
 }
